@@ -118,8 +118,24 @@ check("C19", "model_checking",
       "flag values are observed through the verif-tagged in-process driver; the pacer handed to the attacker is taken to be the stored rate",
       "TLA+ grammar/meaning enumeration by TLC, exported cases replayed on the real flag parsers, TLC trace validation", "DESIGN.md section 8 (C19)")
 
+check("C05", "model_checking",
+      "Attack.tla assigns sequence number and timestamp in one action (the seqmu critical section); TLC proves OrderAgree over all interleavings of "
+      "the bounded model and exhibits the inversion when the timestamp is read in a separate step with real-time clock advance. The real Attacker is "
+      "stressed in real time (workers 1..512, max-workers below/at/above, unlimited and 200k/s rates, jittered transports, with and without -race); "
+      "all results of each attack, sorted by sequence number, are validated by TLC (BigNat ns): order agreement, start <= ts <= transport entry, "
+      "latency >= transport time, end = ts + latency. Race-detector reports in the hit path count as violations.",
+      "real scheduling: detection of a split critical section is probabilistic; the attack's start is bounded by a driver-side instant",
+      "TLA+ model invariant (TLC exhaustive) + TLC trace validation of real-time stress runs, Go race detector", "DESIGN.md section 5 (C05)")
+check("C06", "model_checking",
+      "Hit.tla transcribes the hit path as a case analysis with fault points (targeter/request-build/transport/redirect-limit/body-read failures, "
+      "statuses, body sizes, max-body, header sets, chunked, attack name); TLC enumerates 5441 cases and exports them; each is run as one hit of the "
+      "real Attacker through the real http.Client with a fake RoundTripper and recording bodies, and TLC checks the observed result, wire request and "
+      "body reads/Close against HitOK (quick: a seed-dependent third of the response-side product plus all other cases and random large-body cases).",
+      "the transport is a fake http.RoundTripper (the redirect logic of net/http is real); failed exchanges are held only to the failure clauses",
+      "TLA+ case analysis enumerated by TLC, exported cases replayed on the real hit path, TLC trace validation", "DESIGN.md section 5 (C06)")
+
 UNDER = "check under construction in this round (specification and driver not committed yet)"
-for p in ["C05", "C06", "C15", "C18"]:
+for p in ["C15", "C18"]:
     NA[p] = UNDER
 NA["C16"] = ("arbitrary-byte crash/hang freedom of parsers has no abstract state machine to specify; deciding it means fuzzing, "
              "a different technique (DESIGN.md section 9)")
